@@ -672,3 +672,15 @@ Proof.
   cbn [spec_step]. rewrite spec_find_none_fresh; [reflexivity|].
   intros x Hx. specialize (Hlt x Hx). lia.
 Qed.
+
+(* a substate is reported locked exactly while some handle on it is open *)
+Theorem substate_locked_iff sp k :
+  snd (spec_step sp (OpIsLocked k)) = OutBool true <-> exists x, In x (open sp) /\ oh_key x = k.
+Proof.
+  cbn [spec_step snd]. split.
+  - intros H. assert (E : existsb (on_key k) (open sp) = true) by congruence.
+    apply existsb_exists in E. destruct E as (x & Hx & Hk). exists x. split; [exact Hx|].
+    apply skey_eqb_eq. exact Hk.
+  - intros (x & Hx & Hk). f_equal. apply existsb_exists. exists x. split; [exact Hx|].
+    unfold on_key. rewrite Hk. apply skey_eqb_refl.
+Qed.
